@@ -20,7 +20,7 @@ CFG = {
 
 
 SMALL = {
-    'templates': ['m2m', 'o2m_opt', 'o2m_req', 'self', 'composite', 'o2o_opt', 'auto'],
+    'templates': ['m2m', 'o2m_opt', 'o2m_req', 'self', 'composite', 'o2o_opt', 'auto', 'pkref'],
     'budget': {'quick': 9000, 'thorough': 160000},
     'monitors': CFG['monitors'],
 }
